@@ -1,10 +1,88 @@
-from jsim.envs.base import Adapter
+"""Game2048: rules written from docs/environments/game_2048.md, the class docstring and the game it names.
+
+Board of board_size x board_size holding exponents (0 = empty, e = tile of value 2**e). Actions
+0..3 = up, right, down, left: every tile slides as far as it can towards that side; two equal tiles
+that meet merge into one tile of twice the value (exponent + 1); a tile produced by a merge does not
+merge again in the same move, and pairs are formed starting from the side the tiles move towards
+(the rule of the game the docs refer to: 2 2 2 -> 4 2, 2 2 2 2 -> 4 4). A move is legal iff it
+changes the board. After a legal move exactly one tile 2 or 4 (exponent 1 or 2) appears on an empty
+cell. Reward = sum of the values of the tiles created by merging. An illegal move is ignored. The
+episode ends when no legal move remains.
+"""
+from __future__ import annotations
+
+from typing import Any, List, Optional, Tuple
+
+import numpy as np
+
 from jsim.envs._mk import cfg
+from jsim.envs.base import Adapter
+
+NAMES = ["up", "right", "down", "left"]
+
+
+def _squeeze(line: List[int]) -> Tuple[List[int], int]:
+    """One line of tiles moving towards index 0. Returns (new line, value created by merging)."""
+    tiles = [int(v) for v in line if v != 0]
+    out: List[int] = []
+    gained = 0
+    i = 0
+    while i < len(tiles):
+        if i + 1 < len(tiles) and tiles[i] == tiles[i + 1]:
+            out.append(tiles[i] + 1)
+            gained += 2 ** (tiles[i] + 1)
+            i += 2  # both tiles are consumed; the new tile cannot merge again in this move
+        else:
+            out.append(tiles[i])
+            i += 1
+    return out + [0] * (len(line) - len(out)), gained
+
+
+def slide(board: np.ndarray, a: int) -> Tuple[np.ndarray, int]:
+    """Board after sliding in direction a (before any tile is spawned) and the value merged."""
+    b = np.asarray(board).astype(np.int64)
+    n, m = b.shape
+    out = np.zeros_like(b)
+    gained = 0
+    if a in (0, 2):  # up / down: columns; up moves towards row 0
+        for c in range(m):
+            col = b[:, c].tolist()
+            if a == 2:
+                col = col[::-1]
+            new, g = _squeeze(col)
+            if a == 2:
+                new = new[::-1]
+            out[:, c] = new
+            gained += g
+    else:  # right / left: rows; left moves towards column 0
+        for r in range(n):
+            row = b[r, :].tolist()
+            if a == 1:
+                row = row[::-1]
+            new, g = _squeeze(row)
+            if a == 1:
+                new = new[::-1]
+            out[r, :] = new
+            gained += g
+    return out, gained
+
+
+def tile_sum(board: np.ndarray) -> int:
+    b = np.asarray(board).astype(np.int64)
+    return int(sum(2 ** int(e) for e in b[b > 0]))
 
 
 class A(Adapter):
     name = "Game2048"
     mask_mode = "flat"
+    terminate_on_invalid = False
+    has_reaction = True
+    has_invalid_effect = True
+    has_physical = True
+    has_objective = True
+    objective_without_end = True
+    has_model = True
+    has_observer = True
 
     def configs(self):
         return [cfg("b4", True, board_size=4), cfg("b2", True, board_size=2), cfg("b3", board_size=3), cfg("b5", board_size=5)]
@@ -15,3 +93,150 @@ class A(Adapter):
 
     def max_steps(self, env, c):
         return 400
+
+    # ---- C04 -------------------------------------------------------------------------------------
+    def legal(self, s: Any, env: Any) -> np.ndarray:
+        b = np.asarray(s.board)
+        return np.asarray([not np.array_equal(slide(b, a)[0], b) for a in range(4)], dtype=bool)
+
+    def describe(self, s, env, idx):
+        return f"direction {NAMES[int(idx[0])]}; board=\n{np.asarray(s.board)}"
+
+    def reaction_invalid(self, ps, action, agent, s, ts, env, cfg):
+        # ignore-invalid env: the move was treated as invalid iff nothing moved and nothing was spawned. A move that is
+        # carried out always changes the board (the slide changes it and the spawn raises the tile sum).
+        return bool(np.array_equal(np.asarray(s.board), np.asarray(ps.board)))
+
+    # ---- C05 -------------------------------------------------------------------------------------
+    def invalid_effect(self, ps, action, illegal, s, ts, env, cfg):
+        pb, nb = np.asarray(ps.board), np.asarray(s.board)
+        if not np.array_equal(pb, nb):
+            d = np.argwhere(pb != nb)[0].tolist()
+            return ("invalid_move_changed_board", f"{NAMES[int(action)]} cannot move any tile but cell {d} went from {int(pb[tuple(d)])} to "
+                    f"{int(nb[tuple(d)])} (tile count {int((pb > 0).sum())} -> {int((nb > 0).sum())})")
+        if float(ts.reward) != 0.0:
+            return ("invalid_move_reward", f"reward {float(ts.reward)} for a move that merges nothing")
+        if float(s.score) != float(ps.score):
+            return ("invalid_move_changed_score", f"score {float(ps.score)} -> {float(s.score)}")
+        # ps is non-terminal, so a legal move exists there; the board is the same, so one still exists: the game goes on.
+        if int(ts.step_type) == 2:
+            return ("invalid_move_terminal", "LAST after an ignored move although the unchanged board still has a legal move")
+        if float(ts.discount) != 1.0:
+            return ("invalid_move_discount", f"discount {float(ts.discount)} on a non-terminal step")
+        return None
+
+    # ---- C07 -------------------------------------------------------------------------------------
+    def physical(self, ps, action, s, ts, env, cfg):
+        nb = np.asarray(s.board)
+        if nb.ndim != 2 or nb.shape[0] != nb.shape[1] or nb.shape[0] != cfg["board_size"]:
+            return ("board_shape", f"board shape {nb.shape} for board_size {cfg['board_size']}")
+        if (nb < 0).any():
+            return ("negative_exponent", f"board holds a negative entry:\n{nb}")
+        if ps is None:
+            tiles = nb[nb > 0]
+            if len(tiles) != 1 or int(tiles[0]) not in (1, 2):
+                return ("initial_board", f"the initial board must hold exactly one tile 2 or 4; exponents present: {tiles.tolist()}")
+            return None
+        a = int(action)
+        pb = np.asarray(ps.board)
+        moved, gained = slide(pb, a)
+        is_legal = not np.array_equal(moved, pb)
+        before, after = tile_sum(pb), tile_sum(nb)
+        # conservation across the move: merging keeps the sum of tile values, so all of the change is the spawned tile
+        if tile_sum(moved) != before:  # pragma: no cover (guards the rule statement itself)
+            raise AssertionError("slide() does not conserve the tile sum")
+        if is_legal and after - before not in (2, 4):
+            return ("tile_sum_not_conserved", f"{NAMES[a]} (legal): tile sum {before} -> {after}; a legal move adds exactly one tile 2 or 4")
+        if not is_legal and after != before:
+            return ("tile_sum_not_conserved", f"{NAMES[a]} (moves nothing): tile sum {before} -> {after}")
+        diff = np.argwhere(nb != moved)
+        if is_legal:
+            if len(diff) != 1:
+                return ("spawn_count", f"{NAMES[a]} (legal): {len(diff)} cells differ from the slid board, expected exactly one spawned tile;\n"
+                        f"slid=\n{moved}\ngot=\n{nb}")
+            i = tuple(diff[0])
+            if moved[i] != 0 or int(nb[i]) not in (1, 2):
+                return ("spawn_value", f"cell {list(map(int, i))}: slid board has {int(moved[i])}, successor has {int(nb[i])}; a spawned tile is "
+                        f"2 or 4 on an empty cell")
+        elif len(diff) != 0:
+            return ("spawn_after_illegal_move", f"{NAMES[a]} moves nothing, yet {len(diff)} cells changed")
+        if not np.isclose(float(ts.reward), float(gained), rtol=1e-5, atol=1e-6):
+            return ("reward_vs_merged_tiles", f"{NAMES[a]}: reward {float(ts.reward)} but the merged tiles are worth {gained}")
+        return None
+
+    # ---- C08 -------------------------------------------------------------------------------------
+    def objective(self, hist, env, cfg):
+        # The documented cumulative reward (sum of the values of all tiles created by merging) is what the state carries
+        # as its score; the per-step amounts are checked against the merge rule by C07/C09.
+        return float(hist[-1].state.score)
+
+    # ---- C09 -------------------------------------------------------------------------------------
+    def model_step(self, ps, action, s, ts, env, cfg):
+        a = int(action)
+        pb, nb = np.asarray(ps.board), np.asarray(s.board)
+        moved, gained = slide(pb, a)
+        is_legal = not np.array_equal(moved, pb)
+        if is_legal:
+            diff = np.argwhere(nb != moved)
+            # random part by set membership: one new tile, exponent 1 or 2, on a cell that is empty after the slide
+            if len(diff) != 1 or moved[tuple(diff[0])] != 0 or int(nb[tuple(diff[0])]) not in (1, 2):
+                return ("board", f"{NAMES[a]} from\n{pb}\nthe rules give (before the spawn)\n{moved}\nbut the env returned\n{nb}")
+        else:
+            gained = 0
+            if not np.array_equal(nb, pb):
+                return ("board_after_ignored_move", f"{NAMES[a]} moves nothing on\n{pb}\nbut the env returned\n{nb}")
+        if not np.isclose(float(ts.reward), float(gained), rtol=1e-5, atol=1e-6):
+            return ("reward", f"reward {float(ts.reward)} expected {gained} ({NAMES[a]} on\n{pb})")
+        if int(s.step_count) != int(ps.step_count) + 1:
+            return ("step_count", f"step_count {int(s.step_count)} expected {int(ps.step_count) + 1}")
+        if not np.isclose(float(s.score), float(ps.score) + gained, rtol=1e-6, atol=1e-6):
+            return ("score", f"score {float(s.score)} expected {float(ps.score) + gained}")
+        done = not any(not np.array_equal(slide(nb, d)[0], nb) for d in range(4))
+        if (int(ts.step_type) == 2) != done:
+            return ("termination", f"step_type {int(ts.step_type)} but the rules say done={done} for\n{nb}")
+        want_disc = 0.0 if done else 1.0
+        if float(ts.discount) != want_disc:
+            return ("discount", f"discount {float(ts.discount)} expected {want_disc}")
+        return None
+
+    # ---- C11 (no time limit; the only documented end is "no legal move") -------------------------
+    def end_cause(self, ps, action, s, ts, env, cfg):
+        return None if self.legal(s, env).any() else "no_legal_move"
+
+    # ---- C12 -------------------------------------------------------------------------------------
+    def observe(self, s, obs, env, cfg):
+        if not np.array_equal(np.asarray(obs.board), np.asarray(s.board)):
+            return ("board", f"obs.board != state.board at {np.argwhere(np.asarray(obs.board) != np.asarray(s.board))[0].tolist()}")
+        if np.asarray(obs.board).dtype != np.int32:
+            return ("board_dtype", f"{np.asarray(obs.board).dtype}")
+        if not np.array_equal(np.asarray(obs.action_mask), np.asarray(s.action_mask)):
+            return ("action_mask", f"obs.action_mask {np.asarray(obs.action_mask).tolist()} != state.action_mask {np.asarray(s.action_mask).tolist()}")
+        return None
+
+    # ---- policies --------------------------------------------------------------------------------
+    def policy_survive(self, s, env, rng, legal):
+        """Keep the board as empty as possible (most empty cells after the slide, then corner-heavy)."""
+        if legal is None or not legal.any():
+            return None
+        b = np.asarray(s.board)
+        best, best_a = None, None
+        for a in [int(x) for x in rng.permutation(4)]:
+            if legal[a]:
+                moved, gained = slide(b, a)
+                key = (int((moved == 0).sum()), gained)
+                if best is None or key > best:
+                    best, best_a = key, a
+        return best_a
+
+    def policy_complete(self, s, env, rng, legal):
+        """There is no completion in 2048; chase merges (largest merged value first) so that multi-merge rows occur."""
+        if legal is None or not legal.any():
+            return None
+        b = np.asarray(s.board)
+        best, best_a = None, None
+        for a in [int(x) for x in rng.permutation(4)]:
+            if legal[a]:
+                g = slide(b, a)[1]
+                if best is None or g > best:
+                    best, best_a = g, a
+        return best_a
